@@ -79,7 +79,13 @@ def disp1(ctx) -> List[Ob]:
 
 
 def _disp1_class(ctx, m, subj, arms, hier, tag, K, table) -> Ob:
-    reached, certain = dispatch(arms, subj, K, hier.is_sub)
+    from .. import domains as _dom
+
+    _dom.FIELDS_OF = lambda k: hier.fields(k) if hier.known(k) else None
+    try:
+        reached, certain = dispatch(arms, subj, K, hier.is_sub)
+    finally:
+        _dom.FIELDS_OF = None
     table[tag + K] = [a.index for a in reached]
     key = f"{tag}stmt class {K}"
     where = ctx.where(m, reached[0].node if reached else m.node)
@@ -307,6 +313,24 @@ def disp4(ctx) -> List[Ob]:
     u = prog.find_function("unparse_code")
     if u is None:
         raise AnalysisError("unparse_code not found")
+    # what it hands on is the module's top-level statement list (or the list it was given), unfiltered
+    uparams = [p_.arg for p_ in u.params]
+    ucfg = ctx.cfg(u)
+    for r_ in [n for n in A.walk_no_nested(u.node) if isinstance(n, ast.Return) and n.value is not None]:
+        srcs = []
+        if isinstance(r_.value, ast.Name):
+            for d_ in ucfg.reaching_defs(r_, r_.value.id):
+                if d_.stmt is not None and isinstance(d_.stmt, ast.Assign):
+                    srcs.append(d_.stmt.value)
+        else:
+            srcs.append(r_.value)
+        for sv in srcs:
+            key = "normalised input " + A.alpha_key(sv)
+            okv = (isinstance(sv, ast.Attribute) and sv.attr == "body" and isinstance(sv.value, ast.Call) and (A.dotted(sv.value.func) or "") == "ast.parse") or (isinstance(sv, ast.Name) and sv.id in uparams)
+            if okv:
+                out.append(ok("DISP-4", u.qualname, key, ctx.where(u, sv), "the module's top-level statement list, unfiltered", nontrivial=False))
+            else:
+                out.append(bad("DISP-4", u.qualname, key, ctx.where(u, sv), f"the input is normalised to {A.unparse(sv)[:60]}, not to the top-level statement list: the 'first node is a function definition' check no longer refers to the input's first statement"))
     ifs = [s for s in A.body_without_docstring(u.node) if isinstance(s, ast.If)]
     key = "input normalisation: final else"
     if ifs:
@@ -888,14 +912,19 @@ def disp9(ctx) -> List[Ob]:
         for c in A.walk_no_nested(fn.node):
             if isinstance(c, ast.Call) and (A.dotted(c.func) or "") == "object.__setattr__" and len(c.args) == 3 and isinstance(c.args[1], ast.Constant):
                 tgt = c.args[0]
+                val = A.unparse(c.args[2])
                 kind = "self"
+                good = True
                 if isinstance(tgt, ast.Attribute) and tgt.attr == "subregion":
                     kind = "subgraph"
+                    good = val == A.unparse(tgt.value)  # X.subregion.region = X
                 elif isinstance(tgt, ast.Name):
                     for anc in A.ancestors(c):
                         if isinstance(anc, ast.For) and ".subregion.graph" in A.unparse(anc.iter) and tgt.id in A.names_in(anc.target):
                             kind = "nested"
-                outk.add((c.args[1].value, kind))
+                            owner = A.unparse(anc.iter).split(".subregion.graph")[0]
+                            good = val == owner  # regions inside X.subregion get X as parent
+                outk.add((c.args[1].value, kind if good else kind + ":wrong-value:" + val))
         return outk
 
     def fixups(fn):
@@ -929,7 +958,13 @@ def disp9(ctx) -> List[Ob]:
         raise AnalysisError("extract_region not found")
     rk = fixups_k(mk)
     what = {"subgraph": "of the region's sub-graph", "nested": "of the regions nested inside the sub-graph", "self": "of the region"}
+    for attr, kind in sorted(rk):
+        if ":wrong-value:" in kind:
+            k0, _, v0 = kind.partition(":wrong-value:")
+            out.append(bad("DISP-9", mk.qualname, f"pointer '{attr}' {what[k0]} value", ctx.where(mk), f"the reader sets '{attr}' {what[k0]} to {v0}, which is not the enclosing region object (extract_region sets the region itself): the pointer names a throw-away region"))
     for attr, kind in sorted(fixups_k(er)):
+        if ":wrong-value:" in kind:
+            continue
         key = f"pointer '{attr}' {what[kind]} restored on read"
         if (attr, kind) in rk:
             out.append(ok("DISP-9", mk.qualname, key, ctx.where(mk), f"extract_region sets '{attr}' {what[kind]}, so does the reader"))
